@@ -29,6 +29,16 @@ open(os.path.join(V, "seeded", "MATRIX.md"), "w").write("# Seeded changes vs. ch
 caught = sum(1 for r in rows if r[3] == "caught")
 live = sum(1 for r in rows if "neutralised" not in r[3])
 print("%d/%d caught by the check of their own property" % (caught, live))
+# property-preserving changes: one line per run in benign.summary
+ben = {}
+bp = os.path.join(logs, "benign.summary")
+if os.path.exists(bp):
+    for ln in open(bp):
+        mm = re.match(r"(C\d+-[bc]\d+) == (C\d+) exit=(\d+)", ln)
+        if mm:
+            ben[mm.group(1)] = mm.group(3)
+quiet = sum(1 for v in ben.values() if v == "0")
+print("%d/%d property-preserving changes leave their check quiet" % (quiet, len(ben)))
 if "--design" in sys.argv:
     p = os.path.join(V, "DESIGN.md")
     s = open(p).read()
@@ -40,4 +50,10 @@ if "--design" in sys.argv:
         s = s.replace("MATRIX-PLACEHOLDER", block)
     else:
         s = re.sub(r"<!-- MATRIX-BEGIN -->.*?<!-- MATRIX-END -->", lambda _: block, s, flags=re.S)
+    bblock = "<!-- BENIGN-BEGIN -->\nLast complete run of all of them (`tools/runbenign.sh`, quick tier): %d of %d leave the check of their property quiet%s.\n<!-- BENIGN-END -->" % (
+        quiet, len(ben), "" if quiet == len(ben) else "; alarms: " + ", ".join(sorted(k for k, v in ben.items() if v != "0")))
+    if "BENIGN-PLACEHOLDER" in s:
+        s = s.replace("BENIGN-PLACEHOLDER", bblock)
+    else:
+        s = re.sub(r"<!-- BENIGN-BEGIN -->.*?<!-- BENIGN-END -->", lambda _: bblock, s, flags=re.S)
     open(p, "w").write(s)
